@@ -247,6 +247,85 @@ func TestC12LongChunkHeaderIsJudgedTheSameHoweverItArrives(t *testing.T) {
 	}
 }
 
+// The same for the second and for the terminating header, and for a cut at every position near the end of the padded
+// header: headers padded to about the limit (1024 bytes) were accepted in one read and refused when the cut fell one to
+// three bytes before their end; a padded terminating header was never measured when it arrived whole.
+func TestC12HeaderLimitDoesNotDependOnWhereTheStreamIsCut(t *testing.T) {
+	mk := func(z1, z2, z3 int) []byte {
+		key := getSigningKey(c12Secret, c12Region, c12Date)
+		scope := fmt.Sprintf("%s/%s/s3/aws4_request", c12Date.Format("20060102"), c12Region)
+		prev := c12Seed
+		sign := func(c []byte) string {
+			h := sha256.Sum256(c)
+			sts := fmt.Sprintf("AWS4-HMAC-SHA256-PAYLOAD\n%s\n%s\n%s\n%s\n%s", c12Date.Format("20060102T150405Z"), scope, prev, zeroLenSig, hex.EncodeToString(h[:]))
+			prev = hex.EncodeToString(hmac256(key, []byte(sts)))
+			return prev
+		}
+		d1, d2 := []byte("abcdefghij"), []byte("klmnopqrst")
+		var b bytes.Buffer
+		fmt.Fprintf(&b, "%sa;chunk-signature=%s\r\n%s\r\n", strings.Repeat("0", z1), sign(d1), d1)
+		fmt.Fprintf(&b, "%sa;chunk-signature=%s\r\n%s\r\n", strings.Repeat("0", z2), sign(d2), d2)
+		fmt.Fprintf(&b, "%s0;chunk-signature=%s\r\n\r\n", strings.Repeat("0", z3), sign(nil))
+		return b.Bytes()
+	}
+	verdict := func(stream []byte, cut int) bool {
+		r, err := NewSignedChunkReader(&cutOnce{data: stream, cut: cut}, AuthData{Signature: c12Seed}, c12Region, c12Secret, c12Date, "", false)
+		if err != nil {
+			t.Fatal(err)
+		}
+		b := make([]byte, 8192)
+		for i := 0; i < 1000; i++ {
+			_, err := r.Read(b)
+			if err == io.EOF {
+				return true
+			}
+			if err != nil {
+				return false
+			}
+		}
+		return false
+	}
+	bad := 0
+	for _, z := range []int{930, 938, 939, 940, 941, 942, 943, 944, 1020, 1100, 2100} {
+		for pos := 0; pos < 3; pos++ {
+			zs := [3]int{}
+			zs[pos] = z
+			stream := mk(zs[0], zs[1], zs[2])
+			whole := verdict(stream, len(stream))
+			for cut := 1; cut < len(stream); cut++ {
+				if v := verdict(stream, cut); v != whole && bad < 10 {
+					bad++
+					t.Errorf("header %d padded with %d zeros: accepted=%v in one read, accepted=%v when the stream is cut after byte %d of %d", pos+1, z, whole, v, cut, len(stream))
+				}
+			}
+		}
+	}
+}
+
+// delivers data[:cut] with the first Read, the rest with the following ones
+type cutOnce struct {
+	data []byte
+	cut  int
+	done bool
+}
+
+func (c *cutOnce) Read(p []byte) (int, error) {
+	if len(c.data) == 0 {
+		return 0, io.EOF
+	}
+	n := len(c.data)
+	if !c.done && c.cut < n {
+		n = c.cut
+	}
+	c.done = true
+	if n > len(p) {
+		n = len(p)
+	}
+	copy(p, c.data[:n])
+	c.data = c.data[n:]
+	return n, nil
+}
+
 type fixedFragments struct {
 	data []byte
 	k    int
